@@ -120,6 +120,11 @@ impl AsyncRead for WebsocketStream {
         cx: &mut Context<'_>,
         buf: &mut ReadBuf<'_>,
     ) -> Poll<io::Result<()>> {
+        // poll_write hands a message to the sink and cannot wait for the socket: if the
+        // flush was not complete then, nothing else would finish it while the caller only
+        // reads (a keep-alive reply would stay queued until the next write). Drive it here.
+        let _ = self.inner.poll_flush_unpin(cx);
+
         loop {
             if !self.buf.is_empty() && buf.remaining() > 0 {
                 let to_copy = buf.remaining().min(self.buf.len());
